@@ -275,6 +275,15 @@ var NumberPatterns = [][]int{
 
 func (m *Msg) assignNumbers(pattern int) {
 	nums := NumberPatterns[pattern]
+	if nums == nil {
+		// TypeOf refuses structs that mix tagged and untagged fields: when a
+		// field needs a tag for its encoding, tag them all (same numbers).
+		for _, f := range m.Fields {
+			if !f.Skip && f.Elem.Enc != "" {
+				nums = []int{1, 2, 3, 4}
+			}
+		}
+	}
 	n := 0
 	for i := range m.Fields {
 		f := &m.Fields[i]
